@@ -845,3 +845,33 @@ func runByz(it HostileItem, res *HostileResult) {
 		}
 	}
 }
+
+func init() {
+	// BX(A,B): an adversary holding validator B's key sends node A (as an eager-sync request from B) an event that
+	// is correctly signed, built on B's last event known to A, and carries index last+2: A must refuse it.
+	sched.CustomActions["BX"] = func(c *sim.Cluster, a sched.Action) error {
+		var ferr error
+		c.Custom(fmt.Sprintf("BX(%d,%d)", a.A, a.B), func() error { return nil })
+		t := c.Nodes[a.A]
+		l, err := t.Store.ParticipantEvents(sim.PubHex(a.B), -1)
+		if err != nil || len(l) == 0 {
+			return fmt.Errorf("BX: target knows no event of %d", a.B)
+		}
+		sp, err := t.Store.GetEvent(l[len(l)-1])
+		if err != nil {
+			return err
+		}
+		op, _ := t.Store.LastEventFrom(sim.PubHex(a.A))
+		e := hg.NewEvent([][]byte{[]byte("byz")}, nil, nil, []string{sp.Hex(), op}, sim.PubOf(a.B), sp.Index()+2)
+		e.Body.Timestamp = sim.BaseTime + 999
+		if err := e.Sign(sim.Key(a.B)); err != nil {
+			return err
+		}
+		if err := t.Node.VHashgraph().SetWireInfo(e); err != nil {
+			return err
+		}
+		w := e.ToWire()
+		_, ferr = c.ProcessRPC(a.A, "byz wrong-index event", &net.EagerSyncRequest{FromID: c.Nodes[a.B].Peer.ID(), Events: []hg.WireEvent{w}})
+		return ferr
+	}
+}
